@@ -160,7 +160,8 @@ CHECKS = {
         text='Bounded solver verdict on the real dea3 executed on symbolic arrays: for ALL real inputs abserr>=0 and '
              'abserr>=|result-v2| (hence honest against any X the inputs are within t of), element independence, inputs '
              'unmodified, symmetric=True only trims along axis 0 (1-d and 2-d inputs); the documented guards, restated from the inputs, decide between Shanks value '
-             'and fallback v2 exactly as documented; for all L,a,q in a 30-decade box on the Shanks branch |result-L|<=1e-250 '
+             'and fallback v2 exactly as documented; for all L,a,q in a 30-decade box (q up to 5e-5 from 1) on the Shanks branch |result-L|<=1e-250; '
+             'abserr >= |v2-v1|+|v1-v0| for all inputs; broadcast shapes are elementwise; '
              '(QF_NRA); IEEE totality (finite, non-negative abserr) bit-blasted in z3 FP: float32 with rescaled constants in the '
              'quick tier, float64 with the real constants and |e|<=1e100 in the thorough tier.',
         note='Trusted: z3 (NRA, FP); symbolic numpy layer (validated against the float library on random and tie inputs every '
